@@ -97,3 +97,18 @@ LAYOUT_VARIANT_FIELDS = {"Data.efc.J", "Data.efc.J_colind", "Data.M", "Data.qLD"
 SORT_EXCEPTIONS = {
   ("solver._mul_m_sparse_compact", "cdof_dof_in"): "launched by the compacted solve, whose shallow-replaced Model has nv = nvmax_pad; the per-function resolution sees the plain parameter m",
 }
+
+# R-SORT.3: id-valued fields whose index space depends on a tag stored next to them (a tagged union):
+# field -> (tag field, {tag enum member: index space})   - members not listed have no id space this rule knows
+TAGGED_IDS = {
+  "Data.efc.id": (
+    "Data.efc.type",
+    "ConstraintType",
+    {"EQUALITY": "neq", "FRICTION_DOF": "nv", "FRICTION_TENDON": "ntendon", "LIMIT_JOINT": "njnt", "LIMIT_TENDON": "ntendon", "CONTACT_FRICTIONLESS": "naconmax", "CONTACT_PYRAMIDAL": "naconmax", "CONTACT_ELLIPTIC": "naconmax"},
+  ),
+  "Model.sensor_objid": (
+    "Model.sensor_type",
+    "SensorType",
+    {"JOINTLIMITPOS": "njnt", "JOINTLIMITVEL": "njnt", "JOINTLIMITFRC": "njnt", "TENDONLIMITPOS": "ntendon", "TENDONLIMITVEL": "ntendon", "TENDONLIMITFRC": "ntendon", "JOINTPOS": "njnt", "JOINTVEL": "njnt", "TENDONPOS": "ntendon", "TENDONVEL": "ntendon", "JOINTACTFRC": "njnt", "TENDONACTFRC": "ntendon", "ACTUATORPOS": "nu", "ACTUATORVEL": "nu", "ACTUATORFRC": "nu"},
+  ),
+}
